@@ -1,4 +1,5 @@
 import NfcVerif.Model.CtlC03
+import NfcVerif.Model.SessC03
 open NfcVerif NfcVerif.Tlv
 
 /-! line-protocol driver for the C03 additions: control TLV ranges, vendor format, protect -/
@@ -60,6 +61,28 @@ def showOp (o : OpOut) (tail : String) : String :=
 
 def optNat (i : Int) : Option Nat := if i < 0 then none else some i.toNat
 
+def klassOf (k : String) : Option Klass :=
+  if k = "t2" then some .t2 else if k = "t1" then some .t1 else if k = "topaz" then some .topaz
+  else if k = "topaz512" then some .topaz512 else none
+
+/-- `r` | `w<hex>` | `f<version>:<wipe>` (-1 = None) | `p` -/
+def parseOp (t : String) : Option Op :=
+  if t = "r" then some .read
+  else if t = "p" then some .protect
+  else if t.startsWith "w" then (parseHex (t.drop 1).toString).map Op.write
+  else if t.startsWith "f" then
+    match ((t.drop 1).toString).splitOn ":" with
+    | [v, w] => match v.toInt?, w.toInt? with
+      | some v, some w => some (.format (optNat v) (optNat w))
+      | _, _ => none
+    | _ => none
+  else none
+
+def doSeq (k : Klass) (m : Bytes) (ops : List Op) : String :=
+  let r := run k true ⟨m, none⟩ ops
+  let steps := r.1.map fun o => s!"{showBool o.res} {showCmds3 o.cmds}"
+  " ; ".intercalate steps ++ " | " ++ showRead3 k.cfg r.2.tag
+
 def handle (line : String) : String :=
   match line.splitOn " " with
   | ["ctl", k, t, d0, d2] => match t.toNat?, d0.toNat?, d2.toNat? with
@@ -76,6 +99,9 @@ def handle (line : String) : String :=
     | some f, some m, some w =>
       let o := if f.isEmpty then formatT2Out m (optNat w) else formatNxp f m (optNat w)
       showOp o (showRead3 t2Cfg (apply m o.cmds))
+    | _, _, _ => "bad-op"
+  | ["seq", k, mh, ops] => match klassOf k, parseHex mh, (ops.splitOn ",").mapM parseOp with
+    | some k, some m, some ops => doSeq k m ops
     | _, _, _ => "bad-op"
   | ["pt2", mh] => match parseHex mh with
     | some m => let o := protectT2 m; showOp o (toHex (apply m o.cmds))
